@@ -95,7 +95,10 @@ class Report:
         os.replace(tmp, os.path.join(EVIDENCE_DIR, f"{self.prop}.json"))
         for v in listed:
             print(f"KNOWN-FINDING: property={self.prop} key={v.key} {known[v.key] or v.message}")
-        for v in new:
+        for n, v in enumerate(new):
+            if n >= 12:
+                print(f"  ... and {len(new) - n} more distinct violation keys (not written out)")
+                break
             path = self.write_replay(v)
             print(f"VIOLATION property={self.prop} replay={path}")
             print(f"  key={v.key}")
